@@ -171,7 +171,24 @@ Inductive eobs := OEnc (code : N) (extlen : N) (warns : list string) | OEFail.
 
 Definition ext_len (x : ext) : N := match x with XNone => 0 | _ => 2 end.
 
+(* the extension word is evaluated eagerly; a register inside a value expression is an error
+   ('unexpected-register' from Symbol._resolve, 'unexpected-value' from the '%' operator) *)
+Fixpoint has_reg (t : otree) : bool :=
+  match t with
+  | OReg r => match try_as_register ascii_lower_str r with Some _ => true | None => false end
+  | OParen _ x | ODeferred x | OPostAdd x | ONeg x | OImm x => has_reg x
+  | OCall l r => has_reg l || has_reg r
+  | OVal => false
+  end.
+Definition ext_fails (x : ext) : bool :=
+  match x with
+  | XNone | XZero => false
+  | XIndex t | XImm t | XAbs t | XRel t | XRelDef t => has_reg t
+  end.
+
 Definition enc_eqb (m : encoded) (o : eobs) : bool :=
+  if ext_fails (e_ext m) then match o with OEFail => true | _ => false end
+  else
   match e_reg m, o with
   | Ok r, OEnc code n w => (e_mode m * 8 + r =? code) && (ext_len (e_ext m) =? n) && list_eqb String.eqb (e_warn m) w
   | Err _, OEFail => true
